@@ -10,12 +10,46 @@ import (
 
 // convert incoming EEBUS json format into standard json format
 func JsonFromEEBUSJson(json []byte) []byte {
+	var result []byte
+
+	// the structural replacements must not alter the content of string literals,
+	// so they are only applied to the parts of the message outside of strings
+	segmentStart := 0
+	inString := false
+	for i := 0; i < len(json); i++ {
+		switch {
+		case inString && json[i] == '\\':
+			// skip the escaped character
+			i++
+		case json[i] == '"':
+			if inString {
+				// copy the string literal including its closing quote unchanged
+				result = append(result, json[segmentStart:i+1]...)
+				segmentStart = i + 1
+			} else {
+				result = append(result, replaceEEBUSJsonStructure(json[segmentStart:i])...)
+				segmentStart = i
+			}
+			inString = !inString
+		}
+	}
+	if inString {
+		result = append(result, json[segmentStart:]...)
+	} else {
+		result = append(result, replaceEEBUSJsonStructure(json[segmentStart:])...)
+	}
+
+	// The PMCP device mistakenly adds an `0x00` byte at the end of many messages.
+	result = bytes.Trim(result, "\x00")
+	return result
+}
+
+// replace the EEBUS json array notation in a part of a message that contains no string literals
+func replaceEEBUSJsonStructure(json []byte) []byte {
 	var result = bytes.ReplaceAll(json, []byte("[{"), []byte("{"))
 	result = bytes.ReplaceAll(result, []byte("},{"), []byte(","))
 	result = bytes.ReplaceAll(result, []byte("}]"), []byte("}"))
 	result = bytes.ReplaceAll(result, []byte("[]"), []byte("{}"))
-	// The PMCP device mistakenly adds an `0x00` byte at the end of many messages.
-	result = bytes.Trim(result, "\x00")
 	return result
 }
 
